@@ -152,7 +152,9 @@ class LifeModel:
         return r
 
     def iterate_n(self, n):
-        r = True
+        # zero iterations change nothing: in particular a completed simulation stays completed (the model used to
+        # mirror the implementation here, which reports "unfinished" after iterate_n(0) on a completed run)
+        r = not self.complete_native
         for _ in range(n):
             r = self._iter()
             if not r:
@@ -334,7 +336,7 @@ def random_history(draw):
         op = draw(st.sampled_from(["iterate", "iterate", "iterate_n", "run0", "run_to_completion", "sample", "progress", "complete",
                                    "output", "finalize", "setup"]))
         if op == "iterate_n":
-            calls.append(["iterate_n", e, draw(st.integers(0, 7))])
+            calls.append(["iterate_n", e, draw(st.sampled_from([0, 0, 1, 2, 3, 5, 7]))])
         elif op == "run0":
             calls.append(["run", e, 0])
         elif op == "setup":
@@ -468,7 +470,9 @@ def check_term(ctx, c):
         raise HarnessError("model n* %d vs ceil %d" % (n_model, math.ceil(tmax / c["dt"])))
     ctx.note(c, True, ["termination:" + c["space"], "termination:" + c["kind"], "t_max=0" if tmax == 0 else "t_max>0", "t_max:" + c["tmax_mode"]])
     cap = n_model + 3
-    calls = [["new", "E", c["kind"]], ["setup", "E", 0]] + [["iterate", "E"]] * cap + [["complete", "E"], ["finalize", "E"]]
+    # ... and stays completed: a batch of zero iterations, then of two, then a single one report "finished" as well
+    after = [["iterate_n", "E", 0], ["complete", "E"], ["iterate_n", "E", 2], ["complete", "E"], ["iterate", "E"], ["complete", "E"]]
+    calls = [["new", "E", c["kind"]], ["setup", "E", 0]] + [["iterate", "E"]] * cap + [["complete", "E"]] + after + [["finalize", "E"]]
     res = run_job({"scripts": [sc], "calls": calls}, "termination run")
     rets = [r["r"] for r in res[2:2 + cap]]
     if True in rets[n_model - 1:] or rets[:n_model - 1] != [True] * (n_model - 1):
@@ -478,6 +482,14 @@ def check_term(ctx, c):
                                                    math.ceil(tmax / c["dt"])), key="termination")
     if res[2 + cap]["r"] is not True:
         raise Violation("is_complete() is %r after the run completed" % res[2 + cap]["r"], key="termination:is_complete")
+    for k, call in enumerate(after):
+        got = res[3 + cap + k]["r"]
+        want = True if call[0] == "complete" else False
+        if got is not want:
+            what = "is_complete()" if call[0] == "complete" else "%s(%s)" % (call[0], ",".join(map(str, call[2:])))
+            raise Violation("%s on a %s: a completed simulation does not stay completed: after [%s] %s returns %r" % (
+                c["kind"], c["space"], " ; ".join("%s(%s)" % (x[0], ",".join(map(str, x[2:]))) for x in after[:k]), what, got),
+                key="termination:stays-complete")
 
 
 # ---- known finding D14: engine objects share one native simulation --------------------------------------
